@@ -731,3 +731,49 @@ def solve_stub(E):
             yield stub
         finally:
             np.linalg.solve = real
+
+
+@contextlib.contextmanager
+def log_stub(E):
+    """opaque logarithm: every np.log(x) inside pyttb returns fresh symbols and records its argument ('sym');
+    the real logarithm, recorded ('conc').  Argument equality is then decided in the reals."""
+    calls = []
+    if E.sym:
+        old = npenv.fac.log
+
+        def fake(x, *a, **k):
+            arr = np.asarray(x, dtype=object)
+            flat = arr.ravel().tolist()
+            outs = []
+            for v in flat:
+                r = E.real(f"log{len(calls)}")
+                calls.append((v, r))
+                outs.append(r)
+            if arr.ndim == 0:
+                return outs[0]
+            return npenv.obj_array(outs).reshape(arr.shape)
+        npenv.fac.log = fake
+        try:
+            yield calls
+        finally:
+            npenv.fac.log = old
+    else:
+        real = np.log
+
+        def wrapped(x, *a, **k):
+            r = real(x, *a, **k)
+            for v, y in zip(np.asarray(x, dtype=float).ravel().tolist(), np.asarray(r, dtype=float).ravel().tolist()):
+                calls.append((v, y))
+            return r
+        import sys
+        mod = sys.modules["pyttb.cp_apr"]
+        oldnp = mod.np
+
+        class _NP:
+            def __getattr__(self, k):
+                return wrapped if k == "log" else getattr(oldnp, k)
+        mod.np = _NP()
+        try:
+            yield calls
+        finally:
+            mod.np = oldnp
